@@ -132,6 +132,33 @@ def run(ctx):
                                      "variants": {str(k): v for k, v in outs.items()}},
                           "%d distinct outputs for one schema: variants %s differ from the first run" % (len(outs), other[:4]))
             nv += 1
+    # the output file's bytes do not depend on what an earlier run left at that path (nothing, a shorter file, a much longer file, the same text)
+    hruns = []
+    for si, sc in enumerate(schemas[:len(SPECIAL) + 4]):
+        first = [r for vn, r in by[si] if vn == "same"][0]
+        if first.status != 0:
+            continue
+        opts = optsets[si % len(optsets)]
+        for hn, old in (("fresh", None), ("shorter", "package old\n"), ("longer", "package old\n\n" + "// a line of the previous version of this file\n" * 4000),
+                        ("same-text", first.stdout), ("same-text-plus-tail", first.stdout + b"\n// tail\n" * 50)):
+            files = {"in/s.json": json.dumps(sc)}
+            if old is not None:
+                files["out/gen.go"] = old
+            hruns.append((si, hn, Run("h%d_%s" % (si, hn), files, ["-p", "pkg"] + opts + ["-o", "out/gen.go", "in/s.json"])))
+    run_all(ctx, [r for _, _, r in hruns])
+    for si, hn, r in hruns:
+        ctx.count({"s": schemas[si], "history": hn}, True, "byte-identity/output-file-history")
+        first = [x for vn, x in by[si] if vn == "same"][0]
+        got = r.created.get("out/gen.go", r.modified.get("out/gen.go", r.files.get("out/gen.go") if hn.startswith("same-text") and hn == "same-text" else None))
+        if isinstance(got, str):
+            got = got.encode()
+        if (r.status != 0 or got != first.stdout) and nv < 6:
+            ctx.violation("oracle", {"kind": "determinism", "files": {k: (v if isinstance(v, str) else v.decode("utf-8", "replace")) for k, v in r.files.items()}, "argv": r.argv,
+                                     "history": hn, "status": r.status, "stderr": r.stderr.decode("utf-8", "replace")[:300]},
+                          "output file after a run over a path that held %s: %d bytes, a fresh run writes %d bytes (status %s)" % (
+                              {"fresh": "nothing", "shorter": "a shorter file", "longer": "a longer file", "same-text": "the same text", "same-text-plus-tail": "the same text and a tail"}[hn],
+                              len(got or b""), len(first.stdout), r.status))
+            nv += 1
     # library use: a run's output must not depend on what the same process generated before (same file path, other options)
     hist_schema = {"type": "object", "title": "A user id", "properties": {"user_id": {"type": "string"}, "html_url": {"type": "string", "format": "date"},
                                                                        "n": {"type": "integer", "minimum": 0, "maximum": 200}}, "required": ["user_id"]}
